@@ -265,10 +265,12 @@ const WORDS: &[&str] = &[
     "a", "b", "ab", "ba", "c", "abc", "A", "ä", "a\u{308}", "é", "e\u{301}", "ﬁ", "fi", "x1", "1",
     "12", "a-b", "a.b", "'a'", "a_b", "中", "中a", "a\u{200d}b", "²", "Ⅳ", "ａ", "¨", "a,", "(b)",
     "b!", "€", "a€b", "😀", "🇩🇪", "क्ष", "-", "...", "a1b", "ß", "ǅ", "n\u{303}o", "?!", "b-a", "ab-ab",
+    // words whose character n-grams are keys that start with a comment / section marker (save -> load must keep them)
+    "#", "#ta", ";", ";x", "//", "//a", "%a", "[a]", "--b", "!",
 ];
 const KEYS: &[&str] = &[
     "a", "b", "ab", "ba", "abc", "acb", "bac", "abd", "ac", "é", "e\u{301}", "a b", "ﬁ", "x", "<bow> a b",
-    "中", "bb", "aé", "fi", "cab", "🇩🇪", "क्ष", "e\u{301}\u{200d}",
+    "中", "bb", "aé", "fi", "cab", "🇩🇪", "क्ष", "e\u{301}\u{200d}", "#", "# t a", ";a", "//", "<bow> # t", "!",
 ];
 const QUERIES: &[&str] = &[
     "a", "b", "ab", "ba", "abc", "acb", "bca", "ac", "abd", "bd", "", "é", "e\u{301}", "ﬁ", "xyz", "ｂ", "a b",
@@ -344,7 +346,12 @@ fn gen_line(rng: &mut Rng, vocab: usize) -> String {
                 s.push_str(sep(rng));
             }
         }
-        s.push_str(pick_word(rng, vocab));
+        // 1 word in 12: one whose character n-grams start with a comment / section marker
+        if rng.chance(1, 12) {
+            s.push_str(*rng.pick(&WORDS[WORDS.len() - 10..]));
+        } else {
+            s.push_str(pick_word(rng, vocab));
+        }
     }
     if rng.chance(1, 8) {
         s.push_str(sep(rng));
@@ -424,7 +431,7 @@ fn gen_raw(rng: &mut Rng, tier: Tier) -> Raw {
         _ => 3,
     };
     let maxl = if tier == Tier::Thorough { 9 } else { 6 };
-    let mut files = vec![];
+    let mut files: Vec<(bool, Vec<String>)> = vec![];
     for _ in 0..nfiles {
         let nl = match rng.below(10) {
             0 => 0,
@@ -434,6 +441,36 @@ fn gen_raw(rng: &mut Rng, tier: Tier) -> Raw {
         // an unterminated empty last line does not exist: such files always end with a newline
         let nl = rng.chance(5, 6) || lines.last().map_or(true, |s: &String| s.is_empty());
         files.push((nl, lines));
+    }
+    // plateau stream: k distinct words, each exactly m times, spread over the lines in random order; the cut
+    // (max_size in 1..k) falls inside the group of equally frequent entries, so that only the (freq, word) order
+    // of the heap decides which words survive — the same for every build
+    let plateau = !edge && rng.chance(1, 8);
+    let mut plateau_k = 0usize;
+    if plateau {
+        let k = rng.range(3, 12);
+        let m = rng.range(1, 3);
+        // letter words with pairwise distinct NFKC forms: one token each in word mode
+        let mut pool: Vec<&str> = vec!["a", "b", "ab", "ba", "c", "abc", "A", "ä", "é", "fi", "中", "ß", "bb", "ac"];
+        rng.shuffle(&mut pool);
+        let mut toks: Vec<&str> = vec![];
+        for w in pool.iter().take(k) {
+            for _ in 0..m {
+                toks.push(w);
+            }
+        }
+        rng.shuffle(&mut toks);
+        let nl = rng.range(1, 4);
+        let mut lines: Vec<String> = vec![String::new(); nl];
+        for t in toks {
+            let i = rng.below(nl);
+            if !lines[i].is_empty() {
+                lines[i].push(' ');
+            }
+            lines[i].push_str(t);
+        }
+        files = vec![(true, lines)];
+        plateau_k = k;
     }
     let total: usize = files.iter().map(|f| f.1.len()).sum();
     let max_size = match rng.below(20) {
@@ -446,6 +483,7 @@ fn gen_raw(rng: &mut Rng, tier: Tier) -> Raw {
         18 => Some(100_000),
         _ => Some(1usize << 61),
     };
+    let max_size = if plateau { Some(rng.range(1, plateau_k - 1)) } else { max_size };
     let max_seq = match rng.below(12) {
         0..=5 => None,
         6 => Some(0),
@@ -454,12 +492,21 @@ fn gen_raw(rng: &mut Rng, tier: Tier) -> Raw {
         10 => Some(total + rng.below(3)),
         _ => Some(1usize << 61),
     };
-    let threads = match rng.below(10) {
-        0..=1 => vec![0, 1, 2, 3, 4],
-        2..=5 => vec![rng.below(5), rng.below(5)],
-        6 => vec![8],
+    // several builds per case: different worker-thread counts and a repeated build (every HashMap instance
+    // iterates in its own order, so a result that depends on that order differs between two builds)
+    let threads = match rng.below(20) {
+        0..=2 => vec![0, 1, 2, 3, 4, 0],
+        3..=11 => {
+            let a = rng.below(5);
+            let b = (a + 1 + rng.below(4)) % 5;
+            vec![a, b, a]
+        }
+        12..=13 => vec![8, 1],
+        14..=15 => vec![rng.below(5), rng.below(5)],
         _ => vec![rng.below(5)],
     };
+    let max_seq = if plateau { None } else { max_seq };
+    let threads = if plateau && threads.len() < 2 { vec![0, 2, 0] } else { threads };
     let arr = (0..rng.below(total + 2)).map(|_| rng.below(64)).collect();
     let hp = (0..rng.below(24)).map(|_| rng.below(64)).collect();
     let dfile = gen_dfile(rng);
@@ -643,6 +690,14 @@ impl Prop for C20 {
         }
         if !r.probes.is_empty() {
             tags.push("clsprobe".into());
+        }
+        if r.threads.len() >= 2 {
+            tags.push("builds2".into());
+        }
+        if let Some(d) = &first {
+            if d.items().any(|(k, _)| k.starts_with('#') || k.starts_with(';') || k.starts_with("//")) {
+                tags.push("marker-key".into());
+            }
         }
         Some((out, tags))
     }
